@@ -471,7 +471,7 @@ static void gen_offset_alone_history(Rng& g, Plan& pl, bool z) {
     }
     if (g.chance(0.2)) { Op s = mkop(g.chance(0.5) ? "pc" : "rs"); s.o = o; s.i = {(int64_t)g.below(2)}; pl.ops.push_back(s); }
     Op e = mkop("f_exec"); e.o = o; e.d = {delta}; e.i = {0, (int64_t)g.below(2), 1}; pl.ops.push_back(e);
-    if (g.chance(0.3)) { Op e2 = mkop("f_exec"); e2.o = o; e2.d = {delta}; e2.i = {1, (int64_t)g.below(2), 0}; pl.ops.push_back(e2); }
+    if (g.chance(0.3)) { Op e2 = mkop("f_exec"); e2.o = o; e2.d = {delta}; e2.i = {1, (int64_t)g.below(2), 1}; pl.ops.push_back(e2); }
     if (rd + 1 < rounds && g.chance(0.5)) { Op c = mkop("clear"); c.o = o; pl.ops.push_back(c); next_cell = 0; }
   }
 }
@@ -569,7 +569,22 @@ Plan gen_c12(uint64_t seed, uint64_t run, const std::string& cfg) {
     if (rr == l) rr = l + 1 + (int64_t)g.below(8); if (bb == t) bb = t + 1 + (int64_t)g.below(8);
     Op n = mkop(g.chance(0.6) ? "new_rc" : "new_rcl"); n.o = 0; n.i = {l, t, rr, bb}; pl.ops.push_back(n);
     int ne = (int)g.range(2, 5);
-    for (int i = 0; i < ne; ++i) { Op o = mkop("r_exec"); o.o = 0; setP(o, 0, gen_paths(g, mag, 5, maxpts, z, &f)); pl.ops.push_back(o); }
+    for (int i = 0; i < ne; ++i) {
+      Op o = mkop("r_exec"); o.o = 0; PPaths pp = gen_paths(g, mag, 5, maxpts, z, &f);
+      int extra = (int)g.below(3);
+      for (int k = 0; k < extra; ++k) {
+        PPath s; int64_t cx = l + (rr - l) / 2, cy = t + (bb - t) / 2; double hw = (double)(rr - l) / 2 + 1, hh = (double)(bb - t) / 2 + 1;
+        if (g.chance(0.5)) {          // dense star through the rectangle
+          int n = 5 + 2 * (int)g.below(4), kk = n / 2; double rad = std::max(hw, hh) * (1.5 + g.unit() * 5) + 2, ph = g.unit() * 6.28318530717958647692;
+          for (int q = 0; q < n; ++q) { double a = ph + 6.28318530717958647692 * (double)((q * kk) % n) / n; s.push_back({cx + (int64_t)std::llround(rad * std::cos(a)), cy + (int64_t)std::llround(rad * std::sin(a)), 0}); }
+        } else {                      // a path that fully contains the rectangle
+          int64_t m = (int64_t)(std::max(hw, hh) * (1.2 + g.unit() * 2)) + 2;
+          s = {{cx - m, cy - m, 0}, {cx + m, cy - m, 0}, {cx + m, cy + m, 0}, {cx - m, cy + m, 0}}; if (g.chance(0.5)) std::reverse(s.begin(), s.end());
+        }
+        add_z(g, s, z); pp.insert(pp.begin() + (long)g.below(pp.size() + 1), s);
+      }
+      setP(o, 0, pp); pl.ops.push_back(o);
+    }
   }
   return pl;
 }
@@ -597,7 +612,8 @@ Plan gen_c14(uint64_t seed, uint64_t run, const std::string& cfg) {
     for (int k = 0; k < nops; ++k) {
       int kind = common >= 0 && g.chance(0.8) ? common : (int)g.below(N_ENTRY_KINDS);
       if (shared >= 0 && g.chance(0.4)) kind = (int)g.below(2);
-      slot += append_entry(g, pl, kind, t, slot, "A", z, 3, 12, shared);
+      bool big = g.chance(0.05);
+      slot += append_entry(g, pl, kind, t, slot, "A", z, 3, big ? 120 : 12, shared);
       if (slot > 12) break;
     }
   }
